@@ -44,8 +44,10 @@ pub enum Ev {
     PTransferUnattached,
     LAttachR,
     LCloseR,
+    /// the peer sends a second attach for the sender link that is already attached (same name, same handle)
+    PDupAttach,
 }
-pub const ALPHABET: [Ev; 23] = [
+pub const ALPHABET: [Ev; 24] = [
     Ev::LAttachS,
     Ev::LSend,
     Ev::LCloseS,
@@ -69,6 +71,7 @@ pub const ALPHABET: [Ev; 23] = [
     Ev::PTransferUnattached,
     Ev::LAttachR,
     Ev::LCloseR,
+    Ev::PDupAttach,
 ];
 
 #[derive(Debug, Clone, Default)]
@@ -216,6 +219,7 @@ pub async fn scenario(events: Vec<Ev>) -> Obs {
             Ev::PWithholdEnd => c.peer.auto.end && peer_ended.is_none(),
             Ev::PRefuseAttach => !refuse_next_attach && peer_ended.is_none() && !session_over,
             Ev::PTransferUnattached => peer_ended.is_none() && !session_over,
+            Ev::PDupAttach => snd_handle.is_some() && peer_detached_s.is_none() && peer_ended.is_none() && !session_over,
         };
         if !enabled {
             break;
@@ -516,6 +520,26 @@ pub async fn scenario(events: Vec<Ev>) -> Obs {
             Ev::PWithholdDetach => c.peer.auto.detach = false,
             Ev::PWithholdEnd => c.peer.auto.end = false,
             Ev::PRefuseAttach => refuse_next_attach = true,
+            Ev::PDupAttach => {
+                let our = c.peer.links.iter().find(|l| Some(l.lib_handle) == snd_handle && !l.detached).map(|l| l.our_handle).unwrap_or(0);
+                let aa = Attach {
+                    name: "s".into(),
+                    handle: Handle(our),
+                    role: fe2o3_amqp_types::definitions::Role::Receiver,
+                    snd_settle_mode: SenderSettleMode::Settled,
+                    rcv_settle_mode: Default::default(),
+                    source: None,
+                    target: None,
+                    unsettled: None,
+                    incomplete_unsettled: false,
+                    initial_delivery_count: None,
+                    max_message_size: None,
+                    offered_capabilities: None,
+                    desired_capabilities: None,
+                    properties: None,
+                };
+                c.peer.send(0, Performative::Attach(aa));
+            }
             Ev::PTransferUnattached => {
                 let t = Transfer {
                     handle: Handle(77),
@@ -559,7 +583,7 @@ pub async fn scenario(events: Vec<Ev>) -> Obs {
         }
         // a transfer for an unattached handle is a protocol violation by the peer: the library may end the
         // session with an error; from then on the session is over for this history
-        if *ev == Ev::PTransferUnattached && lib_end(&c.peer.trace).is_some() {
+        if matches!(ev, Ev::PTransferUnattached | Ev::PDupAttach) && lib_end(&c.peer.trace).is_some() {
             session_over = true;
             if peer_ended.is_none() {
                 peer_ended = Some(None);
